@@ -326,6 +326,8 @@ func TestPropSeeds(t *testing.T) {
 	}
 }
 
+var cutAfter = []string{"if", "else", "else if", "for", "switch", "case", "default", "default:", "templ", "script", "css", "import", "package", "@", "{{", "...", "children", "range", "func", "={", "?={", "{!", "<!--", "<script", "<style", "</"}
+
 func TestPropTruncations(t *testing.T) {
 	shard, shards := ev.Shard()
 	stride := ev.Pick(23, 1)
@@ -340,6 +342,39 @@ func TestPropTruncations(t *testing.T) {
 				fail(t, sd.Text[:cut], err)
 			}
 		}
+	}
+	// structure-aware cuts (both tiers): the input ends directly after a keyword or an opening
+	// token, with and without the byte that follows it - where a parser looks ahead for something
+	// that is not there
+	if !ev.Thorough() {
+		m := 0
+		for si, sd := range corpus.Seeds() {
+			if si%shards != shard {
+				continue
+			}
+			seen := map[int]bool{}
+			for _, kw := range cutAfter {
+				for from := 0; ; {
+					i := strings.Index(sd.Text[from:], kw)
+					if i < 0 {
+						break
+					}
+					end := from + i + len(kw)
+					from = end
+					for _, cut := range []int{end, end + 1} {
+						if cut > len(sd.Text) || seen[cut] {
+							continue
+						}
+						seen[cut] = true
+						m++
+						if err := decide(sd.Text[:cut], nil, false); err != nil {
+							fail(t, sd.Text[:cut], err)
+						}
+					}
+				}
+			}
+		}
+		recTotal.ClassN("truncations after a keyword or opening token", m)
 	}
 	recTotal.ClassN("truncations", n)
 	recTotal.Set("all_truncations_enumerated", ev.Thorough())
